@@ -6,15 +6,31 @@ use crate::world::{Ev, Outcome, Req, Resp, World};
 use std::sync::Arc;
 use tower::Service;
 
-pub fn caller<S, M>(w: Arc<World>, mut svc: S, req: Req, pause: bool, map: M) -> impl FnOnce() -> ActorFut + Send + 'static
+pub fn caller<S, M>(w: Arc<World>, svc: S, req: Req, pause: bool, map: M) -> impl FnOnce() -> ActorFut + Send + 'static
 where
     S: Service<Req, Response = Resp> + Send + 'static,
     S::Future: Send + 'static,
     S::Error: Send + 'static,
-    M: Fn(&S::Error) -> Outcome + Send + 'static,
+    M: Fn(&S::Error) -> Outcome + Send + Sync + 'static,
 {
     move || {
         Box::pin(tokio::task::unconstrained(async move {
+            let mut svc = svc;
+            do_call(&w, &mut svc, req, pause, &map).await;
+        }))
+    }
+}
+
+/// ready → call → (optional suspension) → await on a borrowed service; returns what the caller saw.
+pub async fn do_call<S, M>(w: &Arc<World>, svc: &mut S, req: Req, pause: bool, map: &M) -> Outcome
+where
+    S: Service<Req, Response = Resp> + Send,
+    S::Future: Send,
+    S::Error: Send,
+    M: Fn(&S::Error) -> Outcome + Sync,
+{
+    {
+        {
             let id = req.id;
             match std::future::poll_fn(|cx| svc.poll_ready(cx)).await {
                 Ok(()) => {
@@ -22,8 +38,9 @@ where
                 }
                 Err(e) => {
                     w.log(Ev::OuterReady { req: id, ok: false });
-                    w.log(Ev::Resolve { req: id, out: map(&e) });
-                    return;
+                    let o = map(&e);
+                    w.log(Ev::Resolve { req: id, out: o.clone() });
+                    return o;
                 }
             }
             let fut = svc.call(req);
@@ -37,8 +54,9 @@ where
                 Ok(r) => Outcome::ok(r),
                 Err(e) => map(e),
             };
-            w.log(Ev::Resolve { req: id, out: o });
-        }))
+            w.log(Ev::Resolve { req: id, out: o.clone() });
+            o
+        }
     }
 }
 
